@@ -269,6 +269,19 @@ impl MoveGen {
     }
 }
 
+/// Verification hooks (off unless built with `--cfg chess_verif`): expose how many of the
+/// fixed move-list slots a generator holds, and how many there are.
+#[cfg(chess_verif)]
+impl MoveGen {
+    pub fn verif_slots(&self) -> usize {
+        self.moves.len()
+    }
+
+    pub fn verif_capacity(&self) -> usize {
+        self.moves.capacity()
+    }
+}
+
 impl ExactSizeIterator for MoveGen {
     /// Give the exact length of this iterator
     fn len(&self) -> usize {
